@@ -95,11 +95,14 @@ var rwTemplates = map[string]string{
 	"interp": "v${1 + 1}",
 	"pct":    "50%%{x} %{ if false }no%{ endif }",
 	"badif":  "%{ if true }never closed",
+	"here":   "${1 + 1} up\n", // native: a heredoc whose text starts with the interpolation
 }
 
 func nativeValue(v map[string]any) string {
 	ss := rwStrs(v)
-	if sp, _ := v["sp"].(string); sp != "" {
+	if sp, _ := v["sp"].(string); sp == "here" {
+		return "<<EOT\n" + rwTemplates[sp] + "EOT"
+	} else if sp != "" {
 		return `"` + rwTemplates[sp] + `"`
 	}
 	switch v["t"] {
@@ -213,8 +216,9 @@ func renderNativeItems(items []any, ind string, lay int, sb *strings.Builder) {
 		}
 		switch m["k"] {
 		case "attr":
-			sb.WriteString(ind + m["name"].(string) + eq + nativeValue(nodeOf(m["val"])))
-			if lay == 1 {
+			val := nativeValue(nodeOf(m["val"]))
+			sb.WriteString(ind + m["name"].(string) + eq + val)
+			if lay == 1 && !strings.HasSuffix(val, "EOT") { // nothing may follow a heredoc's closing marker on its line
 				sb.WriteString("   // trailing")
 			}
 			sb.WriteString("\n")
@@ -259,7 +263,22 @@ func renderNativeItems(items []any, ind string, lay int, sb *strings.Builder) {
 			for _, a := range attrs {
 				sb.WriteString(ind + "    " + a[0].(string) + eq + t + ".value." + a[0].(string) + "\n")
 			}
+			inner, _ := m["inner"].(bool)
 			for _, st := range subOrder {
+				if inner {
+					// a dynamic block inside the dynamic block, its iterator named like the outer one: for_each is evaluated
+					// with the outer element, the content with the inner one
+					fs := []string{}
+					for _, a := range subs[st] {
+						fs = append(fs, a[0].(string)+" = "+t+".value."+st+"_"+a[0].(string))
+					}
+					sb.WriteString(ind + "    dynamic " + nativeQuote(st) + " {\n" + ind + "      for_each = [{" + strings.Join(fs, ", ") + "}]\n" + ind + "      iterator = " + t + "\n" + ind + "      content {\n")
+					for _, a := range subs[st] {
+						sb.WriteString(ind + "        " + a[0].(string) + eq + t + ".value." + a[0].(string) + "\n")
+					}
+					sb.WriteString(ind + "      }\n" + ind + "    }\n")
+					continue
+				}
 				sb.WriteString(ind + "    " + st + " {\n")
 				for _, a := range subs[st] {
 					sb.WriteString(ind + "      " + a[0].(string) + eq + t + ".value." + st + "_" + a[0].(string) + "\n")
@@ -345,8 +364,18 @@ func jsonItems(items []any, lay int) orderedObj {
 			for _, a := range attrs {
 				content = append(content, kv{a[0].(string), fmt.Sprintf("${%s.value.%s}", t, a[0])})
 			}
+			inner, _ := m["inner"].(bool)
 			for _, st := range subOrder {
 				so := orderedObj{}
+				if inner {
+					el := orderedObj{}
+					for _, a := range subs[st] {
+						el = append(el, kv{a[0].(string), fmt.Sprintf("${%s.value.%s_%s}", t, st, a[0])})
+						so = append(so, kv{a[0].(string), fmt.Sprintf("${%s.value.%s}", t, a[0])})
+					}
+					content = append(content, kv{"dynamic", orderedObj{kv{st, orderedObj{kv{"for_each", []any{el}}, kv{"iterator", t}, kv{"content", so}}}}})
+					continue
+				}
 				for _, a := range subs[st] {
 					so = append(so, kv{a[0].(string), fmt.Sprintf("${%s.value.%s_%s}", t, st, a[0])})
 				}
